@@ -178,6 +178,20 @@ def h_reproject(kx, ky, mx, my, padmode, align, rot=None, pin="none"):
     prove("needed_dst_row", And(dy_.start <= v, v < dy_.stop), when=inside)
     prove("needed_src_col", And(sx_.start <= fx, fx < sx_.stop), when=inside)
     prove("needed_src_row", And(sy_.start <= fy, fy < sy_.stop), when=inside)
+    # ReprojectInfo.transform is the src->dst pixel map; .back applied to the destination pixel
+    # centre gives the source location the harness computed from its own parameters
+    from odc.geo.types import xy_
+
+    hh = F(1, 2) if not symx.concrete_mode() else 0.5
+    (bk,) = rr.transform.back([xy_(u + hh, v + hh)])
+    if symx.concrete_mode():
+        tolr = F(1, 10**6)
+        prove("transform_back_is_the_pixel_map", And(abs(ex(bk.x) - sx) <= tolr * (1 + abs(sx)), abs(ex(bk.y) - sy) <= tolr * (1 + abs(sy))))
+    else:
+        prove("transform_back_is_the_pixel_map", And(bk.x == sx, bk.y == sy))
+        (fw,) = rr.transform([bk])
+        prove("transform_forward_inverts_back", And(fw.x == u + hh, fw.y == v + hh))
+        prove("transform_linear_reported", rr.transform.linear is not None)
     # scale / scale2 / read_shrink
     kxf, kyf = F(kx), F(ky)
     prove("scale2", And(ex(rr.scale2.x) == kxf, ex(rr.scale2.y) == kyf))
